@@ -75,3 +75,14 @@ Theorem c03_replay_steps : forall E ss c c' evs,
   same_contact (replay evs c) c' /\ wf_contact E c'.
 Proof. exact replay_steps. Qed.
 Print Assumptions c03_replay_steps.
+
+(* where the replay takes last-seen from: the real msg_received event carries no time; the caller replays it with the
+   time the message came in, known from the trigger (triggered_on) / resume (resumed_on) it handed to the engine.  The
+   model's event is annotated with that time: every msg_received of a sprint carries exactly the input time of the
+   engine call, and no modifier or re-evaluation emits one.  (That session.SetInput really stores input.CreatedOn() =
+   that time is checked by the engine-path differential run and direct oracle, not by a theorem.) *)
+Theorem c03_msg_received_time_partial : forall E k acts c c' evs t,
+  wf_contact E c -> kind_wf E k -> Forall (fun fm => mod_wf E (snd fm)) acts ->
+  run_sprint E k acts c = (c', evs) -> In (EMsgReceived t) evs -> kind_input k = Some t.
+Proof. exact sprint_msg_time. Qed.
+Print Assumptions c03_msg_received_time_partial.
